@@ -895,7 +895,6 @@ func countFuncLits(n ast.Node) int {
 // of the closure.
 var closureAlias = map[string]string{}
 
-
 type litKind struct {
 	lit  *ast.FuncLit
 	kind string // iife | go | defer | assign | return | other
